@@ -152,3 +152,20 @@ Proof.
   intros A B. apply bap_sound in A, B. rewrite A in B. specialize (B (kH a)).
   rewrite !coeff_asset_gen_H, N.eqb_refl in B. destruct (N.eqb_spec a b); [assumption|discriminate].
 Qed.
+
+(* ---- bridge to C09: Model/PsetBlind.v states its exact-value clause with `blind_value_proof_verify` (the ideal proof verifies and its value is
+   the claimed one, no range). On the proofs blind_value_proof makes — stated range = the single committed value — that is the translated condition *)
+From EV Require Import Model.Blind Model.PsetBlind.
+Theorem bvp_verify_is_pset_clause rp v gen c : 0 <= v <= U64_MAX ->
+  bvp_verify (mkRR rp (rp_value rp) (rp_value rp)) (Z.to_N v) gen c = blind_value_proof_verify rp v gen c.
+Proof.
+  intros [L U]. unfold bvp_verify, blind_value_proof_verify, rr_verify. cbn [rr_rp rr_min rr_max].
+  destruct (rp_verify rp c [] gen) eqn:V; cbn [andb]; [|reflexivity].
+  destruct (rp_verify_sound _ _ _ _ V) as (_ & (L0 & L1) & _). unfold U64_MAX in *.
+  replace (rp_value rp <=? rp_value rp) with true by lia. replace (0 <=? rp_value rp) with true by lia.
+  replace (rp_value rp <=? 2 ^ 64 - 1) with true by lia. cbn [andb].
+  unfold src_bvp_accept. cbn [fst snd].
+  destruct (rp_value rp =? v) eqn:E.
+  - apply Z.eqb_eq in E. subst v. apply andb_true_iff. split; apply N.eqb_eq; lia.
+  - apply Z.eqb_neq in E. apply andb_false_iff. left. apply N.eqb_neq. lia.
+Qed.
